@@ -521,6 +521,11 @@ impl MediaStreamTrack for SampleStreamTrack {
             }
 
             {
+                // Read the closed flag *before* popping: if it was already set,
+                // every push happened-before and an empty pop really means
+                // "drained". Checking it after the pop could end the stream
+                // while a sample pushed in between is still queued.
+                let source_closed = self.source_closed.load(Ordering::Acquire);
                 let _pop_guard = self.pop_lock.lock();
                 if let Some(sample) = self.queue.pop() {
                     return Ok(sample);
@@ -528,7 +533,7 @@ impl MediaStreamTrack for SampleStreamTrack {
                 #[cfg(rustrtc_verif)]
                 crate::media::verif_sched::point("track.recv.after_empty_pop");
 
-                if self.source_closed.load(Ordering::Acquire) {
+                if source_closed {
                     self.ended.store(true, Ordering::SeqCst);
                     return Err(MediaError::EndOfStream);
                 }
